@@ -446,6 +446,9 @@ def densify(coords: CoordList, resolution: float) -> CoordList:
     if resolution <= 0:
         raise ValueError("resolution must be positive")
 
+    if len(coords) == 0:
+        return []
+
     d2 = resolution**2
 
     def short_enough(p1, p2):
